@@ -77,7 +77,7 @@ for f in ("f64", "f32"):
         lemma="L-FILL-EDGE", inst=f, unwind=4, est_s=240, cap_s=1800, mem_gb=16,
         domain="one edge a->b, both endpoints on the N x N lattice window (either direction, possibly collapsed), any tags, fresh or arbitrary previous box; real SweepEvent::cmp, real BinaryHeap",
         claim="process_polygon on one edge: collapsed edge creates nothing and leaves the box; otherwise exactly one mutually linked pair, left = lexicographically smaller endpoint whichever way the edge is written, tags copied, box extended by exactly the start point")
-reg("fill_two_edges_f64", file="fq/mod.rs", props={"C13": "quick", "C07": "quick", "C03": "thorough", "C04": "thorough"}, lemma="L-FILL-EDGE", inst="f64", unwind=6, est_s=600, cap_s=2700, mem_gb=24,
+reg("fill_two_edges_f64", file="fq/mod.rs", props={"C13": "quick", "C07": "quick", "C03": "thorough", "C04": "thorough"}, lemma="L-FILL-EDGE", inst="f64", unwind=6, est_s=900, cap_s=2700, mem_gb=44,
     domain="two consecutive edges a->b->c of one ring, all three vertices on the 3 x 3 lattice window (any of the edges may be collapsed), fresh box; real SweepEvent::cmp, real BinaryHeap",
     claim="process_polygon handles every edge of a ring on its own: one non-degenerate pair per non-degenerate edge wherever the repeated vertices are; box = hull of the start points of the non-degenerate edges")
 for _nm in ("2h_2h", "1_1h", "0_2", "2_0"):
@@ -137,9 +137,9 @@ SWEEP_MODELS = [("src/boolean/compare_segments.rs", "compare_segments", "crate::
                 ("src/boolean/compute_fields.rs", "compute_fields", "crate::boolean::verif_kani::h_sweep::compute_fields_model"),
                 ("src/boolean/possible_intersection.rs", "possible_intersection", "crate::boolean::verif_kani::h_sweep::possible_intersection_model")]
 for nm, txt in (("mid_removed", "the middle segment ends first (its removal makes the outer two neighbours)"), ("mid_last", "bottom and top end before the middle one"), ("insert_between", "a segment is inserted between two present ones")):
-    reg(f"sweep_protocol_{nm}", file="boolean/h_sweep.rs", props={"C13": "quick", "C09": "thorough", "C14": "thorough", "C05": "thorough"}, lemma="G-SWEEP(protocol)", inst="f64", unwind=10,
+    reg(f"sweep_protocol_{nm}", file="boolean/h_sweep.rs", props={"C13": "quick", "C09": "thorough", "C14": "thorough", "C05": "thorough"}, lemma="G-SWEEP(protocol)", inst="f64", unwind=16,
         est_s=300, cap_s=2400, mem_gb=20, native_models=SWEEP_MODELS,
-        domain=f"template: three stacked disjoint segments, {txt}; operand tags, operation, box limits and all return codes of possible_intersection symbolic; callees replaced by recorders, real BinaryHeap / SplaySet / event order",
+        domain=f"template: three stacked disjoint segments, {txt}; operand tags, operation, box limits and all return codes of possible_intersection symbolic; callees replaced by recorders, BinaryHeap::pop scripted (delivers the template's events in sweep order), SplaySet replaced by a sorted-array model (its behaviour is C17)",
         claim="subdivide's loop: fields from the predecessor, neighbour checks (event,next) and (prev,event) on insertion and (prev,next) after removal, independent of operand tags; recomputation on return code 2; early exit rule; every popped event reported")
 
 # --------------------------------------------------------------------------------------- L-PI
@@ -152,12 +152,17 @@ reg("pi_point", file="boolean/h_pi.rs", props={"C16": "quick", "C13": "quick", "
     native_models=[("src/boolean/segment_intersection.rs", "intersection", "crate::boolean::verif_kani::h_pi::intersection_model_point"), PI_DIV],
     domain="two lattice segments (N x N) with exactly one common point, any tags; intersection() modelled to return Point(p): p = the endpoint for endpoint hits (L-INT), else ANY float point inside both boxes; divide_segment modelled by its L-DIV contract (recorder)",
     claim="possible_intersection, Point arm: 0 and untouched when the segments share their left or right endpoint; else 1 and exactly the segments not having the point as an endpoint are divided, all at that one point; no typing")
-for d, parts in (("horizontal", ("left", "right", "partial", "contain")), ("vertical", ("left", "right", "partial", "contain")), ("rising", ("left", "rest")), ("falling", ("left", "rest"))):
-    for part in parts:
-        tier = "quick" if d in ("horizontal", "vertical") else "thorough"
-        reg(f"pi_overlap_{d}_{part}", file="boolean/h_pi.rs", props={"C16": tier, "C13": tier, "C06": tier if part == "left" else "thorough", "C14": "thorough"}, lemma="L-PI", inst="f64", unwind=6, est_s=400, cap_s=2700, mem_gb=20,
-            domain=f"Overlap arm, {d} line, interval configurations '{part}' (of: identical / common left x2, common right x2, partial x2, containment x2) x which segment is the subject (+ same-operand cases); geometry and tags concrete (templates), in/out flags symbolic; REAL intersection, divide_segment and BinaryHeap",
-            claim="possible_intersection, Overlap arm: same operand -> 0 untouched; else every segment is split at exactly the other's endpoints strictly inside it, return code 2 (common left endpoint: upper twin NonContributing, lower twin Same/DifferentTransition by equal/opposite in_out, twins coincide afterwards) or 3")
+OV_CFG = ["identical", "common left endpoint, first shorter", "common left endpoint, second shorter", "common right endpoint, first starts first", "common right endpoint, second starts first",
+          "partial overlap, first starts first", "partial overlap, second starts first", "first contains second", "second contains first"]
+OV_DIR = dict(h="horizontal", v="vertical", r="rising", f="falling")
+OV_ALL = ["h0s", "h1c", "h2s", "h3s", "h4c", "h5s", "h6c", "h7s", "h8c", "h5_same", "v0c", "v1s", "v2c", "v3c", "v4s", "v5c", "v6s", "v7c", "v8s", "v1_same",
+          "r1s", "r4c", "r6s", "r7c", "f2s", "f3c", "f5s", "f6c", "f8s"]
+for nm in OV_ALL:
+    d, c = OV_DIR[nm[0]], OV_CFG[int(nm[1])]
+    who = "same operand" if nm.endswith("_same") else ("first segment subject" if nm[2] == "s" else "first segment clipping")
+    reg(f"pi_ov_{nm}", file="boolean/h_pi.rs", props={"C16": "thorough", "C13": "thorough", "C06": "thorough"}, lemma="L-PI", inst="f64", unwind=5, est_s=900, cap_s=2400, mem_gb=44, native_models=[PI_DIV],
+        domain=f"Overlap arm template: {d} line, {c}, {who}; geometry and tags concrete, in/out flags symbolic; REAL intersection and event order; divide_segment replaced by its L-DIV contract model (relink + record)",
+        claim="possible_intersection, Overlap arm: same operand -> 0 untouched; else every segment is split at exactly the other's endpoints strictly inside it, return code 2 (common left endpoint: upper twin NonContributing, lower twin Same/DifferentTransition by equal/opposite in_out, twins coincide afterwards) or 3")
 
 # --------------------------------------------------------------------------------------- L-INT
 INT = dict(file="boolean/h_int.rs", unwind=3, lemma="L-INT", mem_gb=16, cap_s=1800,
@@ -229,12 +234,12 @@ for _nm in ("left_chain", "right_chain", "zigzag_lr", "zigzag_rl", "balanced"):
         claim=f"3-node tree of shape {_nm}: after two lookups of arbitrary kind and key every stored key is still at its old address (only box pointers move), contents unchanged",
         **dict(SEQ, unwind=4, domain="concrete initial shape (all five 3-node shapes have a harness), lookup kinds and keys symbolic"))
 for _nm in ("left_chain", "right_chain", "zigzag_lr", "zigzag_rl", "balanced"):
-    reg(f"sp_update3_{_nm}", props={"C17": "quick"}, est_s=200, cap_s=1500,
-        claim=f"3-node tree of shape {_nm}: one insert or remove with an arbitrary key returns what the reference returns and leaves a BST holding exactly the reference entries",
-        **dict(SEQ, unwind=5, domain="concrete initial shape (all five 3-node shapes have a harness), update kind, key and value symbolic"))
-    reg(f"sp_query3_{_nm}", props={"C17": "quick"}, est_s=200, cap_s=1500,
+    reg(f"sp_remove3_{_nm}", props={"C17": "quick"}, est_s=200, cap_s=1500,
+        claim=f"3-node tree of shape {_nm}: one remove with an arbitrary key (present or absent) returns what the reference returns and leaves a BST holding exactly the reference entries",
+        **dict(SEQ, unwind=4, domain="concrete initial shape (all five 3-node shapes have a harness), key symbolic"))
+    reg(f"sp_query3_{_nm}", props={"C17": "thorough"}, est_s=500, cap_s=2400, mem_gb=30,
         claim=f"3-node tree of shape {_nm}: get / next / prev with an arbitrary key agree with the reference and leave the contents intact",
-        **dict(SEQ, unwind=5, domain="concrete initial shape (all five 3-node shapes have a harness), query kind and key symbolic"))
+        **dict(SEQ, unwind=4, domain="concrete initial shape (all five 3-node shapes have a harness), query kind and key symbolic"))
 reg("sp_getmut_index", props={"C17": "quick"}, est_s=200, cap_s=1200, claim="get_mut, Index and IndexMut after two inserts with arbitrary keys agree with the reference", **SEQ)
 reg("sp_extend_clear", props={"C17": "quick"}, est_s=300, cap_s=1500, claim="extend (incl. duplicate keys) then clear then reuse, against the reference; BST shape after extend", **dict(SEQ, unwind=4))
 reg("sp_set_wrappers", props={"C17": "quick"}, est_s=300, cap_s=1500, claim="SplaySet insert/contains/find/next/prev/min/max/len/remove agree with the reference set", **dict(SEQ, inst="SplaySet<u8, closure>"))
@@ -259,18 +264,18 @@ QUICK = {
     "C03": ["nest_index_unassigned_outin", "nest_index_unassigned_inout", "divide_contract_f64", "divide_ulp_f64", "dispatch_empty_subject", "dispatch_empty_clipping", "dispatch_empty_both"],
     "C04": ["int_classify_f32", "pi_point", "iter_order_n3", "iter_order_n4", "divide_contract_f64"],
     "C05": ["cf_relational_plain", "cf_relational_same", "cf_relational_diff", "fill_ids_2h_2h", "fill_ids_1_1h"],
-    "C06": ["dispatch_predicate", "dispatch_empty_subject", "dispatch_empty_clipping", "dispatch_empty_both", "dispatch_union_multi1_multi1", "cf_twins_nonvert_pp1", "pi_overlap_horizontal_left", "pi_overlap_vertical_left"],
+    "C06": ["dispatch_predicate", "dispatch_empty_subject", "dispatch_empty_clipping", "dispatch_empty_both", "dispatch_union_multi1_multi1", "cf_twins_nonvert_pp1", "pi_ov_h0s", "pi_ov_v2c"],
     "C07": ["dispatch_forward_poly_multi2", "dispatch_forward_multi2_multi1", "dispatch_forward_multi2_poly", "dispatch_named_methods", "fill_edge_f64", "fill_two_edges_f64", "fill_ids_2h_2h", "fill_ids_1_1h", "fill_ids_0_2", "fill_ids_2_0"],
     "C08": ["int_scale_f32"],
     "C10": ["nextafter_f64", "nextafter_f32", "int_classify_f32", "int_agree"],
-    "C13": ["fill_edge_f64", "fill_two_edges_f64", "fill_ids_2h_2h", "fill_ids_0_2", "divide_contract_f64", "pi_none", "pi_point", "pi_overlap_horizontal_left", "pi_overlap_vertical_partial", "pi_overlap_vertical_contain", "sweep_protocol_mid_removed"],
+    "C13": ["fill_edge_f64", "fill_two_edges_f64", "fill_ids_2h_2h", "fill_ids_0_2", "divide_contract_f64", "pi_none", "pi_point", "pi_ov_h1c", "pi_ov_v6s", "pi_ov_f5s", "pi_ov_v7c", "sweep_protocol_mid_removed"],
     "C14": ["cf_base", "cf_step_same_nonvert", "cf_step_diff_nonvert", "cf_step_same_vert", "cf_step_diff_vert", "cf_twins_nonvert_pp0", "cf_twins_nonvert_pp1", "cf_twins_nonvert_pp2", "cf_twins_vert_pp0", "cf_twins_vert_pp1"],
     "C15": ["evord_ll_f64", "evord_lr_f64", "evord_rr_f64", "segord_pair_f32_n3"],
-    "C16": ["int_classify_f32", "int_swap_f32", "divide_contract_f64", "divide_ulp_f64", "pi_none", "pi_point", "pi_overlap_vertical_left", "pi_overlap_vertical_right", "pi_overlap_vertical_partial", "pi_overlap_vertical_contain", "pi_overlap_horizontal_partial"],
-    "C17": ["sp_ii_get", "sp_ii_next", "sp_ii_prev", "sp_ii_minmax", "sp_ii_shape", "sp_ii_refstab", "sp_ii_iter", "sp_ir_get", "sp_ir_shape", "sp_getmut_index", "sp_extend_clear", "sp_set_wrappers",
+    "C16": ["int_classify_f32", "int_swap_f32", "divide_contract_f64", "divide_ulp_f64", "pi_none", "pi_point", "pi_ov_v0c", "pi_ov_v3c", "pi_ov_v6s", "pi_ov_v8s", "pi_ov_h5s", "pi_ov_f6c", "pi_ov_r7c", "pi_ov_h5_same"],
+    "C17": ["sp_ii_get", "sp_ii_next", "sp_ii_prev", "sp_ii_minmax", "sp_ii_shape", "sp_ii_iter", "sp_ir_get", "sp_ir_shape", "sp_getmut_index", "sp_extend_clear", "sp_set_wrappers",
             "sp_refstab3_left_chain", "sp_refstab3_right_chain", "sp_refstab3_zigzag_lr", "sp_refstab3_zigzag_rl", "sp_refstab3_balanced",
-            "sp_update3_left_chain", "sp_update3_right_chain", "sp_update3_zigzag_lr", "sp_update3_zigzag_rl", "sp_update3_balanced",
-            "sp_query3_left_chain", "sp_query3_right_chain", "sp_query3_zigzag_lr", "sp_query3_zigzag_rl", "sp_query3_balanced"],
+            "sp_remove3_left_chain", "sp_remove3_right_chain", "sp_remove3_zigzag_lr", "sp_remove3_zigzag_rl", "sp_remove3_balanced",
+            ],
 }
 
 PROPS = {}
